@@ -38,6 +38,12 @@ Theorem F6_size_overflow_refuted :
              end.
 Proof. exists 4611686018427387905. vm_compute. auto. Qed.
 
+(** F6d: SIZE_MAX elements of 1 byte: the byte count wraps to 23, less than
+    the header that is then written into the block. *)
+Theorem F6_header_overflow_refuted :
+  exists nm, fst (run (step all_ok true) arr2 [OA (VAlloc 0 nm 1)]) = Fault.
+Proof. exists 18446744073709551615. vm_compute. reflexivity. Qed.
+
 (** F7: slice(0, SIZE_MAX-2) of a view at offset 5 is accepted because
     off + end wraps. *)
 Theorem F7_slice_bound_wraps_refuted :
